@@ -637,7 +637,7 @@ func (sc *specCtx) addrOf(x SExpr) SV {
 		if sl, ok := v.Ty.Underlying().(*types.Slice); ok {
 			s := sc.mat(v)
 			i := sc.mat(sc.val(n.I))
-			return SV{T: fmt.Sprintf("(selem %s %s)", s, i), Ty: types.NewPointer(sl.Elem())}
+			return SV{T: selemT(s, i), Ty: types.NewPointer(sl.Elem())}
 		}
 	case *SIdent:
 		v := sc.val(x)
@@ -659,7 +659,7 @@ func (sc *specCtx) idx(n *SIdx) SV {
 		}
 	case *types.Slice:
 		s := sc.mat(v)
-		a := fmt.Sprintf("(selem %s %s)", s, sc.mat(i))
+		a := selemT(s, sc.mat(i))
 		if isStruct(u.Elem()) && e.m.structOf(u.Elem()) != nil {
 			return SV{Addr: a, Ty: u.Elem()}
 		}
@@ -785,6 +785,10 @@ func (sc *specCtx) call(n *SCall) SV {
 			return SV{T: fmt.Sprintf("(srune %s)", sc.mat(v)), Ty: types.Typ[types.String]}
 		}
 		return v
+	case "sameBacking":
+		// sameBacking(s, t): slices s and t share base, offset and capacity (t is s re-sliced in length only)
+		a, b := sc.mat(arg(0)), sc.mat(arg(1))
+		return SV{T: fmt.Sprintf("(and (= (sl_base %s) (sl_base %s)) (= (sl_off %s) (sl_off %s)) (= (sl_cap %s) (sl_cap %s)))", a, b, a, b, a, b), Ty: boolT}
 	case "same":
 		// same(a, b): identical values (for float64: bitwise-level identity incl. NaN, unlike ==)
 		a, b := sc.unify(arg(0), arg(1))
